@@ -26,14 +26,14 @@ import (
 // ---------------------------------------------------------------------------------------------
 // key zoo slice used here
 
-var zooCount = map[fix.KeyKind]int{fix.KP256: 8, fix.KP224: 5, fix.KP384: 5, fix.KP521: 3, fix.KSM2: 5, fix.KEd25519: 5, fix.KEth: 6}
+var zooCount = map[fix.KeyKind]int{fix.KP256: 8, fix.KP224: 5, fix.KP384: 5, fix.KP521: 3, fix.KSM2: 5, fix.KEd25519: 5, fix.KEth: 6, fix.KSecp256k1: 5}
 
 // weights of the kinds when a key is drawn (P-521 verification costs ~7 ms and decoding a compressed P-224 key
 // ~10 ms inside the node's own script parser, so these are rarer).
 var kindWeights = []struct {
 	k fix.KeyKind
 	w int
-}{{fix.KP256, 6}, {fix.KEth, 4}, {fix.KP224, 1}, {fix.KP384, 2}, {fix.KSM2, 3}, {fix.KEd25519, 3}, {fix.KP521, 1}}
+}{{fix.KP256, 6}, {fix.KEth, 4}, {fix.KP224, 1}, {fix.KP384, 2}, {fix.KSM2, 3}, {fix.KEd25519, 3}, {fix.KP521, 1}, {fix.KSecp256k1, 3}}
 
 var kindDraw []fix.KeyKind
 
